@@ -34,12 +34,16 @@ ASSUMPTIONS = ['interpreter shutdown is modelled as a final flush of stdout afte
 GOOD1 = {'eid': 0x50000A01, 'plid': 0x50000A01, 'sections': [{'t': 'PS', 'callouts': [pelgen.CALLOUT_FULL]}, {'t': 'EH'}, {'t': 'MT'}]}
 GOOD3 = {'eid': 0x50000A03, 'plid': 0x50000A03, 'sections': [{'t': 'PS'}, {'t': 'UD', 'comp': 0xABCD, 'payload': '00' * 300}]}
 SECOND = {
+    # a section whose (shipped) plug-in raises on the payload: the PEL still decodes, with an error note for that section
+    'plugin-raises': {'eid': 0x50000A02, 'plid': 0x50000A02, 'sections': [
+        {'t': 'PS'}, {'t': 'UD', 'comp': 0xE500, 'sub': 4, 'payload': '0102030405'},
+        {'t': 'UD', 'comp': 0x2000, 'sub': 3, 'payload': (b'text line\n' * 30).hex()}]},
     'fine': {'eid': 0x50000A02, 'plid': 0x50000A02, 'sections': [{'t': 'PS'}, {'t': 'UD', 'comp': 0x2000, 'sub': 3, 'payload': (b'text line\n' * 40).hex()}]},
     'minimal': {'eid': 0x50000A02, 'plid': 0x50000A02, 'sections': []},
     'filtered': {'eid': 0x50000A02, 'plid': 0x50000A02, 'uh': {'sev': 0x40, 'flags': 0x6000}, 'sections': [{'t': 'PS'}]},
 }
-J_SECONDS = ['fine', 'undecodable', 'filtered', 'minimal', 'cut-at-boundary', 'cut-in-header']
-F_KINDS = ['fine', 'undecodable', 'filtered', 'badph', 'missing', 'cut-at-boundary', 'cut-in-header']
+J_SECONDS = ['fine', 'undecodable', 'filtered', 'minimal', 'cut-at-boundary', 'cut-in-header', 'plugin-raises']
+F_KINDS = ['fine', 'undecodable', 'filtered', 'badph', 'missing', 'cut-at-boundary', 'cut-in-header', 'plugin-raises']
 # inputs for which no output may exist whatever the tool's own fault-free run produces (decided by construction, not by the tool)
 NO_OUTPUT_KINDS = {'undecodable', 'badph', 'filtered', 'cut-at-boundary', 'cut-in-header'}
 CHUNKS = [64, 1024, 0]
